@@ -13,7 +13,7 @@ SPEC = dict(
                 "map_codepoint+lookup_glyph_id, codegen count transforms, compute_checksum), with value theorems showing the repaired "
                 "(explicitly wrapping) kernels compute the unwrapped result wherever the old code did not trap. The models are tied to the code "
                 "on every run by vm_compute correspondence on ~36k operand tuples (including SROUND+ROUND executed by the real interpreter from "
-                "a synthetic font). The bulk of the property is an implementation-only strict-profile search: generated TrueType bytecode "
+                "a synthetic font; the ten interpreter arithmetic instructions and the scaled CVT are likewise executed by the real interpreter and read back). The bulk of the property is an implementation-only strict-profile search: generated TrueType bytecode "
                 "pushing extreme operands into every arithmetic/rounding/delta/move instruction, and value-extreme field mutations of the test "
                 "fonts followed by the skrifa draw/metrics/paint APIs, klippa and IFT selection/application; every overflow/assertion panic is "
                 "reported keyed by source site (klippa sites: known findings)."),
@@ -24,6 +24,7 @@ SPEC = dict(
     modelled=["skrifa/src/outline/glyf/hint/math.rs: floor, round, ceil, floor_pad, round_pad, mul, div, mul_div, mul_div_no_round, mul14, normalize14 (the one unchecked negation)",
               "skrifa/src/outline/glyf/hint/round.rs: RoundState::round (all 8 modes); engine/graphics.rs super_round",
               "font-types/src/fixed.rs: Neg, abs, fract, Mul, Div, mul_div, from_i32, to_i32, to_f26dot6, to_f2dot14, F2Dot14::to_fixed, F26Dot6::{from_i32,to_i32}",
+              "skrifa hint engine/arith.rs: ADD SUB DIV MUL ABS NEG FLOOR CEILING MAX MIN closures; engine/cvt.rs WCVTF; hint/instance.rs CVT load (+cvar delta) and scaling; glyf/mod.rs compute_scale and setup_phantom_points (+tsb/vadvance); glyf/deltas.rs Jiggler::interpolate / shift (D = Fixed); fixed.rs AddAssign / SubAssign",
               "read-fonts: glyf.rs midpoint_i32; fvar.rs VariationAxisRecord::normalize; avar.rs SegmentMaps::apply; cmap.rs Cmap4::map_codepoint + lookup_glyph_id; lib.rs codegen_prelude::transforms::*; tables.rs compute_checksum"],
     not_covered=["all arithmetic outside the kernels above: rest of the TrueType interpreter (engine/*.rs, zone.rs, projection.rs, graphics.rs), autohint/**, color/**, metrics.rs, cff, generated *_byte_range sums, klippa, incremental-font-transfer — searched (strict profile), not proved",
                  "float arithmetic (never traps)",
